@@ -7,6 +7,7 @@
 #include "mc/ctx.hpp"
 #include "oracle/geod_ode.hpp"
 #include "models/geod_tables.hpp"
+#include "models/geod_lattice.hpp"
 #include <GeographicLib/Geodesic.hpp>
 #include <GeographicLib/GeodesicExact.hpp>
 #include <GeographicLib/GeodesicLine.hpp>
@@ -44,27 +45,16 @@ int main(int argc, char** argv) {
   Ctx ctx(argc, argv);
   const bool T = ctx.thorough();
   std::vector<geodtab::Ell> ells = geodtab::ellipsoids();
-  const double nx = std::nextafter(1 / 16.0, 0.0);
-  const std::vector<double> lats = {-90, -90 + 1e-9, -60, -1 / 32.0, -1e-20, -0.0, 0.0, nx, 1 / 16.0, 30, 45, 89.9, 90};
-  const std::vector<double> azis = {0.0, -0.0, 1e-17, 1 / 32.0, 30, 45, 90 - 1e-12, 90, 135, 180, -180, 270, 10000};
-  const std::vector<double> lons = {0, 179.5, -180, 540};
-  // lengths: distances as multiples of the quarter meridian Q, arcs in degrees.  (quick flag)
-  struct LSpec { bool arc; double v; bool quick; };
-  const std::vector<LSpec> lspec = {
-    {false, 0, true}, {false, 1e-10, true}, {false, -1e-10, false}, {false, 1e-4, false}, {false, -1e-4, true},
-    {false, 0.5, false}, {false, -0.5, true}, {false, 1, true}, {false, -1, false}, {false, 2, false}, {false, -2, true},
-    {false, 2 * (1 + 5e-8), true}, {false, -2 * (1 + 5e-8), false}, {false, 8, true}, {false, -8, false}, {false, 29.2, false}, {false, -29.2, true},
-    {true, 0, false}, {true, 1e-9, true}, {true, -1e-9, false}, {true, 30, false}, {true, -30, true}, {true, 90, true}, {true, -90, false},
-    {true, 180, true}, {true, -180, false}, {true, 360, false}, {true, -360, true}, {true, 720.5, true}, {true, -720.5, false}};
+  const std::vector<double> lats = geodlat::direct_lats(), azis = geodlat::direct_azis(), lons = geodlat::direct_lons();
+  const std::vector<geodlat::LSpec> lspec = geodlat::direct_lengths();
 
   ctx.sub("direct");
   ctx.bound("direct.ellipsoids", T ? "all 21: a=6378137 f in {0,+-1/298.257223563,+-0.01,+-0.02,+-0.05,+-0.1,+-0.2}; (a=1,f=1/150); (a=1e9,f=-1/150); b/a in {1/16,1/2,0.99,1.01,2,16} with quarter meridian 1e7 m"
                                    : "8: wgs84, f=+-0.02, f=+-0.1 (a=6378137); b/a in {1/2, 2, 1/16} with quarter meridian 1e7 m");
-  ctx.bound("direct.lat1", "{-90,-90+1e-9,-60,-1/32,-1e-20,-0,+0,1/16-ulp,1/16,30,45,89.9,90} (13)");
-  ctx.bound("direct.azi1", "{0,-0,1e-17,1/32,30,45,90-1e-12,90,135,180,-180,270,10000} (13)");
+  ctx.bound("direct.lat1", geodlat::direct_lat_text());
+  ctx.bound("direct.azi1", geodlat::direct_azi_text());
   ctx.bound("direct.lon1", "{0,179.5,-180,540}");
-  ctx.bound("direct.length", T ? "s12/Q in {0,+-1e-10,+-1e-4,+-0.5,+-1,+-2,+-2(1+5e-8),+-8,+-29.2} (17), a12 in {0,+-1e-9,+-30,+-90,+-180,+-360,+-720.5} deg (13)"
-                               : "s12/Q in {0,1e-10,-1e-4,-0.5,1,-2,2(1+5e-8),8,-29.2} (9), a12 in {1e-9,-30,90,180,-360,720.5} deg (6)");
+  ctx.bound("direct.length", geodlat::direct_len_text(T));
   ctx.bound("direct.config", "{Geodesic series (|f|<=0.2 only), GeodesicExact, Geodesic(exact=true)} x {GenDirect, Line+GenPosition, (Arc)DirectLine+GenPosition at s13/a13 same kind, same line other kind} x LONG_UNROLL {0,1}");
   ctx.note("tolerance = 2 x documented error (Geodesic.hpp table by |f| scaled by a/6378137; GeodesicExact.hpp table by b/a scaled by Q/1e7 m, floor 40 nm), times the number of half circuits max(1, |s12|/2Q, |a12|/180) (the documented figures are for shortest geodesics)");
   ctx.note("exactly meridional lines through a pole (sin azi1 = 0): the documentation does not say on which side the pole is passed; |lon2-lon1| is compared");
